@@ -4,10 +4,12 @@ package main
 
 import (
 	"crypto/sha256"
+	"errors"
 	"encoding/binary"
 	"encoding/hex"
 	"fmt"
 	"math/big"
+	"os"
 	"regexp"
 	"sort"
 	"strings"
@@ -39,6 +41,7 @@ type Trace struct {
 	rootIDs  map[string]int
 	pairs    map[[2]string]bool // (addr, slot) pairs ever written
 	nrev     int
+	bulked   bool
 }
 
 // lastRevert names the last recorded revert step (key into the model's answers).
@@ -126,6 +129,49 @@ func (t *Trace) newNode(name string) {
 		return
 	}
 	t.add("new "+name, "ok", "new node")
+}
+
+// bulkNode: a node opened on a copy of the base image (the model builds the same chain in closed form).
+func (t *Trace) bulkNode(name string, b *Base) {
+	if t == nil {
+		return
+	}
+	if !t.bulked {
+		// the closed form is computed once per trace; every node on the image is a copy of it
+		t.add("bulk base-image "+b.bulk, "ok", "the base image")
+		t.bulked = true
+	}
+	t.add("copy base-image "+name, "ok", "new node on the base image")
+}
+
+// restart records an in-place restart of a node (graceful: WriteRunningEventFilter first). With
+// dumpRunning the running filter is read back at once on both sides: the real node initialises its lazy
+// filter from the database (InitializeRunningEventFilter), the model runs `initFilter`.
+func (t *Trace) restart(n *Node, graceful, dumpRunning bool) {
+	if t == nil {
+		return
+	}
+	name := modelName(n)
+	if graceful {
+		t.add("shutdown "+name, "ok", "graceful shutdown of "+name)
+	}
+	t.add("kill "+name, "ok", "restart of "+name)
+	if dumpRunning {
+		real, err := t.realFamily(n, "running", 0)
+		if err != nil {
+			real = "harness-error:" + err.Error()
+		}
+		t.add("dump "+name+" running", real, "family running after a restart of "+name)
+	}
+}
+
+// query records an event query over [lo, hi] on a node: `want` is the candidate list computed from
+// the blocks the node should hold.
+func (t *Trace) query(n *Node, lo, hi uint64, want string) {
+	if t == nil {
+		return
+	}
+	t.add(fmt.Sprintf("query %s %x %x", modelName(n), lo, hi), want, fmt.Sprintf("event query candidates on %s", modelName(n)))
 }
 
 func sortedKeys[V any](m map[felt.Felt]V) []felt.Felt {
@@ -308,23 +354,32 @@ func (t *Trace) revert(n *Node, err error) {
 func modelName(n *Node) string { return n.Name }
 
 var families = []string{"height", "headers", "numByHash", "blockTxs", "txLoc", "l1msg", "sus", "commitments", "casm",
-	"persisted", "running", "contracts", "storage", "classes", "hStorage", "hNonce", "hClass"}
+	"persisted", "snapshot", "running", "contracts", "storage", "classes", "hStorage", "hNonce", "hClass"}
 
-// checkpoint compares every bucket family of the real node with the model's.
-func (t *Trace) checkpoint(n *Node, u *Universe, withRunning bool) {
+// checkpoint compares every bucket family of the real node with the model's. Scenarios on the base
+// image compare the block-keyed families from u.ObsFrom on (the base itself is compared once, `full`).
+func (t *Trace) checkpoint(n *Node, u *Universe, withRunning, full bool) {
 	if t == nil {
 		return
+	}
+	lo := u.ObsFrom
+	if full {
+		lo = 0
 	}
 	for _, fam := range families {
 		if fam == "running" && !withRunning {
 			// serialising the in-memory filter costs 8 MB of copying; done at the last checkpoint only
 			continue
 		}
-		real, err := t.realFamily(n, fam)
+		real, err := t.realFamily(n, fam, lo)
 		if err != nil {
 			real = "harness-error:" + err.Error()
 		}
-		t.add("dump "+modelName(n)+" "+fam, real, "family "+fam+" of "+modelName(n))
+		if lo > 0 {
+			t.add(fmt.Sprintf("dumpfrom %s %s %x", modelName(n), fam, lo), real, "family "+fam+" of "+modelName(n))
+		} else {
+			t.add("dump "+modelName(n)+" "+fam, real, "family "+fam+" of "+modelName(n))
+		}
 	}
 }
 
@@ -425,7 +480,26 @@ func filterColumns(raw []byte) (from uint64, text string, err error) {
 	return from, "[" + strings.Join(parts, ",") + "]", nil
 }
 
-func (t *Trace) realFamily(n *Node, fam string) (string, error) {
+// filterText renders a running filter / snapshot the way the model dumps it.
+func filterText(rf *core.RunningEventFilter) (string, error) {
+	inner, err := rf.InnerFilter()
+	if err != nil {
+		return "", err
+	}
+	next, _ := rf.NextBlock()
+	raw, err := inner.MarshalBinary()
+	if err != nil {
+		return "", err
+	}
+	from, text, err := filterColumns(raw)
+	if err != nil {
+		return "", err
+	}
+	return fmt.Sprintf("%x:%x:%s", from, next, text), nil
+}
+
+// realFamily: lo > 0 keeps only the entries of blocks >= lo in the block-keyed families.
+func (t *Trace) realFamily(n *Node, fam string, lo uint64) (string, error) {
 	var out []string
 	switch fam {
 	case "height":
@@ -440,6 +514,9 @@ func (t *Trace) realFamily(n *Node, fam string) (string, error) {
 			if err := encoder.Unmarshal(v, &h); err != nil {
 				return err
 			}
+			if binary.BigEndian.Uint64(k) < lo {
+				return nil
+			}
 			out = append(out, fmt.Sprintf("%s:%s:%s:%x:%s:%s", natOfBytes8(k), hexNat(h.Hash), hexNat(h.ParentHash),
 				verClass(h.ProtocolVersion), bloomID(h.EventsBloom), t.rootID(h.GlobalStateRoot)))
 			return nil
@@ -447,6 +524,9 @@ func (t *Trace) realFamily(n *Node, fam string) (string, error) {
 		return joinOrDash(out), err
 	case "numByHash":
 		err := forEach(n, db.BlockHeaderNumbersByHash, func(k, v []byte) error {
+			if binary.BigEndian.Uint64(v) < lo {
+				return nil
+			}
 			out = append(out, hexBytesNat(k)+":"+natOfBytes8(v))
 			return nil
 		})
@@ -457,6 +537,9 @@ func (t *Trace) realFamily(n *Node, fam string) (string, error) {
 			var num uint64
 			if err := encoder.Unmarshal(k, &num); err != nil {
 				return err
+			}
+			if num < lo {
+				return nil
 			}
 			txs, err := core.GetTransactionsByBlockNumber(n.DB, num)
 			if err != nil {
@@ -473,6 +556,9 @@ func (t *Trace) realFamily(n *Node, fam string) (string, error) {
 		return joinOrDash(out), err
 	case "txLoc":
 		err := forEach(n, db.TransactionBlockNumbersAndIndicesByHash, func(k, v []byte) error {
+			if binary.BigEndian.Uint64(v[0:8]) < lo {
+				return nil
+			}
 			out = append(out, hexBytesNat(k)+":"+natOfBytes8(v[0:8])+":"+natOfBytes8(v[8:16]))
 			return nil
 		})
@@ -487,12 +573,18 @@ func (t *Trace) realFamily(n *Node, fam string) (string, error) {
 		return joinOrDash(out), err
 	case "sus":
 		err := forEach(n, db.StateUpdatesByBlockNumber, func(k, v []byte) error {
+			if binary.BigEndian.Uint64(k) < lo {
+				return nil
+			}
 			out = append(out, natOfBytes8(k))
 			return nil
 		})
 		return joinOrDash(out), err
 	case "commitments":
 		err := forEach(n, db.BlockCommitments, func(k, v []byte) error {
+			if binary.BigEndian.Uint64(k) < lo {
+				return nil
+			}
 			out = append(out, natOfBytes8(k))
 			return nil
 		})
@@ -540,6 +632,16 @@ func (t *Trace) realFamily(n *Node, fam string) (string, error) {
 			return nil
 		})
 		return joinOrDash(out), err
+	case "snapshot":
+		// bucket db.RunningEventFilter: written by a graceful shutdown, deleted by every RevertHead
+		rf, err := core.GetRunningEventFilter(n.DB)
+		if err != nil {
+			if errors.Is(err, db.ErrKeyNotFound) {
+				return "none", nil
+			}
+			return "", err
+		}
+		return filterText(rf)
 	case "running":
 		// the in-memory filter is reachable only through its snapshot: write it, read it, and put
 		// back whatever snapshot the database held before
@@ -557,20 +659,7 @@ func (t *Trace) realFamily(n *Node, fam string) (string, error) {
 		} else {
 			_ = n.DB.Delete(db.RunningEventFilter.Key())
 		}
-		inner, err := rf.InnerFilter()
-		if err != nil {
-			return "", err
-		}
-		next, _ := rf.NextBlock()
-		raw, err := inner.MarshalBinary()
-		if err != nil {
-			return "", err
-		}
-		from, text, err := filterColumns(raw)
-		if err != nil {
-			return "", err
-		}
-		return fmt.Sprintf("%x:%x:%s", from, next, text), nil
+		return filterText(rf)
 	case "contracts":
 		if t.newState {
 			err := forEach(n, db.Contract, func(k, v []byte) error {
@@ -690,6 +779,9 @@ func (t *Trace) runModel(drv *lib.Driver, cfgLine string, res *lib.Result, ctx a
 	lines := []string{cfgLine}
 	for _, s := range t.steps {
 		lines = append(lines, s.line)
+	}
+	if pth := os.Getenv("C04_DUMPTRACE"); pth != "" { // developer aid: the driver input of the last case
+		_ = os.WriteFile(pth, []byte(strings.Join(lines, "\n")+"\n"), 0o644)
 	}
 	outs, err := drv.AskAll(lines)
 	if err != nil {
